@@ -40,6 +40,8 @@ func runC07(c *core.Ctx) {
 	checkElementDerefs(c)
 	c.Rule("OPTPTR", "optional parts of a layout mapping are dereferenced only under a nil test")
 	checkOptionalParts(c)
+	c.Rule("ABS1L", "Value.Compare never compares an element past the end of a list/struct/tuple (shared with C09)")
+	checkCompareListArms(c)
 }
 
 func checkTypecheckRecover(c *core.Ctx) {
@@ -77,9 +79,13 @@ func checkTypecheckRecover(c *core.Ctx) {
 					continue
 				}
 				recovers, assigns := false, false
+				repanics := false
 				ast.Inspect(fl.Body, func(n ast.Node) bool {
 					if call, isCall := n.(*ast.CallExpr); isCall && core.ExprStr(call.Fun) == "recover" {
 						recovers = true
+					}
+					if call, isCall := n.(*ast.CallExpr); isCall && core.ExprStr(call.Fun) == "panic" {
+						repanics = true
 					}
 					if as, isAs := n.(*ast.AssignStmt); isAs {
 						for _, l := range as.Lhs {
@@ -90,14 +96,14 @@ func checkTypecheckRecover(c *core.Ctx) {
 					}
 					return true
 				})
-				if recovers && assigns {
+				if recovers && assigns && !repanics {
 					ok = true
 				}
 				break // must be the first defer, before the Typecheck call
 			}
 		}
 		// the deferred recover must precede the Typecheck call
-		c.Decide(ok, "REC", key, fn.Decl.Pos(), 1, "deferred recover assigns the named error result", "the wrapper does not convert a typecheck panic into its error result (deferred recover assigning a non-nil error to the named result)")
+		c.Decide(ok, "REC", key, fn.Decl.Pos(), 1, "deferred recover assigns the named error result", "the wrapper does not convert every typecheck panic into its error result (a deferred recover assigning a non-nil error to the named result, without re-panicking for some kinds of recovered value: typecheck code panics with strings as well as errors)")
 		wrappers[name] = ok
 	}
 	// who may call Typecheck from cmd
